@@ -24,6 +24,7 @@ not-well-formed report is attributed to (class, place):  xml:<class>-in-<place>:
 import doctest
 import glob
 import io
+import itertools
 import logging
 import os
 import random
@@ -370,6 +371,56 @@ dom_keep = []
 # ----------------------------------------------------------------------------
 # case generation
 
+def _check_subprocess(case):
+    """--xml when layers run in child processes (-j N, or resumed after a tearDown refused with NotImplementedError): the
+    children write the reports of their own tests into the same directory; when the run is over every passing test
+    must be there exactly once, in well-formed files"""
+    import shutil
+    import tempfile
+    import xml.etree.ElementTree as ET
+    from native import testworld as tw
+    xdir = tempfile.mkdtemp(prefix='c17sub_')
+    try:
+        spec = {'layers': [dict(l) for l in case['layers']], 'tests': [dict(t) for t in case['tests']],
+                'args': ['--xml', xdir] + list(case['args'])}
+        obs = tw.execute(spec, file_based=True)
+        probs = []
+        if obs.exc is not None:
+            return [('xml:subprocess:run-raises:%s' % type(obs.exc).__name__, str(obs.exc)[:300])]
+        seen = {}
+        rdir = os.path.join(xdir, 'testreports')
+        for fn in sorted(os.listdir(rdir)) if os.path.isdir(rdir) else []:
+            try:
+                root = ET.parse(os.path.join(rdir, fn)).getroot()
+            except ET.ParseError as e:
+                probs.append(('xml:subprocess:not-well-formed', '%s: %s' % (fn, e)))
+                continue
+            for tc in root.iter('testcase'):
+                seen[tc.get('classname', '') + '.' + tc.get('name', '')] = seen.get(
+                    tc.get('classname', '') + '.' + tc.get('name', ''), 0) + 1
+        for i, t in enumerate(spec['tests']):
+            tid = 'T%02d' % i
+            n = sum(c for k, c in seen.items() if ('.' + tid + '.') in k or k.split('.')[-2:-1] == [tid])
+            if t['k'] == 'pass' and n != 1:
+                probs.append(('xml:subprocess:passed-test-%s' % ('missing' if n == 0 else 'duplicated'),
+                              'test %s (layer %s) passed in a child process but has %d testcase elements in %s (args %s)'
+                              % (tid, t.get('layer'), n, sorted(os.listdir(rdir)) if os.path.isdir(rdir) else 'no report dir',
+                                 spec['args'][2:])))
+        return probs[:3]
+    finally:
+        shutil.rmtree(xdir, ignore_errors=True)
+
+
+def _subprocess_cases():
+    two = [{'name': 'LA'}, {'name': 'LB'}]
+    tests = [{'k': 'pass'}, {'k': 'pass', 'layer': 'LA'}, {'k': 'pass', 'layer': 'LA'}, {'k': 'pass', 'layer': 'LB'},
+             {'k': 'fail', 'layer': 'LB'}]
+    yield {'subprocess': True, 'layers': two, 'tests': tests, 'args': ['-j2']}
+    yield {'subprocess': True, 'layers': two, 'tests': tests, 'args': ['-j3', '-v']}
+    ntd = [{'name': 'LA', 'tearDown': 'NotImplementedError'}, {'name': 'LB'}]
+    yield {'subprocess': True, 'layers': ntd, 'tests': tests, 'args': []}       # LB is resumed in a child process
+
+
 def _safe_name(i):
     return "test_%02d" % i
 
@@ -498,6 +549,8 @@ def _random_case(rnd):
 
 
 def _size(case):
+    if case.get('subprocess'):
+        return (True, 1, True, 0, len(case['tests']), 0, str(case))
     return (case.get("where") not in ("message", "test-name"), case.get("repeat", 1),
             len(case["tests"]) > 3, sum(len(t.get("sub", ())) for t in case["tests"]),
             len(case["tests"]),
@@ -506,6 +559,8 @@ def _size(case):
 
 def _shrink(case, key):
     """drop tests while the key is still produced"""
+    if case.get('subprocess'):
+        return case
     cur = case
     i = 0
     while i < len(cur["tests"]) and len(cur["tests"]) > 1:
@@ -536,7 +591,7 @@ def run(budget_s, seed, tier):
     def do(case):
         nonlocal cases, outcomes
         try:
-            probs = _check(case)
+            probs = _check_subprocess(case) if case.get('subprocess') else _check(case)
         except HarnessMismatch as e:
             mismatches.append(str(e)[:300])
             return
@@ -551,7 +606,7 @@ def run(budget_s, seed, tier):
 
     cat_done = True
     n_cat = 0
-    for case in _catalogue():
+    for case in itertools.chain(_subprocess_cases(), _catalogue()):
         if time.time() > deadline:
             cat_done = False
             break
@@ -609,7 +664,7 @@ def _trim(case):
 
 def replay(case):
     try:
-        problems = _check(case)
+        problems = _check_subprocess(case) if case.get('subprocess') else _check(case)
     except HarnessMismatch as e:
         return False, str(e)[:300]
     if problems:
